@@ -393,6 +393,12 @@ func c02(r *Run) {
 	if t, ok := bi["timestamp"]; ok {
 		r.check(strings.Contains(t[1], "uint64("+term(nextTime)+")"), "C02.R2", "BuildBlock:state-timestamp", w.rel(bb.Pos()), "", "the timestamp written to state is not the builder's nextTime: "+t[1])
 	}
+	// terms of two clock readings render alike: the builder must read the millisecond clock exactly once
+	clocks := 0
+	for _, f := range withNested(bb) {
+		clocks += len(callsNamed(f, "(time.Time).UnixMilli"))
+	}
+	r.check(clocks == 1, "C02.R2", "BuildBlock:single-clock-reading", r.at(w, nextTime), "one UnixMilli reading", fmt.Sprintf("the builder reads the millisecond clock %d times: consumers of different readings disagree on the block time", clocks))
 	// height
 	nsb := callsNamed(bb, pkgChain+".NewStatelessBlock")
 	if len(nsb) == 1 {
